@@ -348,10 +348,14 @@ func runSolver(ctx context.Context, sp solverSpec, text string, dir, base string
 	dur := time.Since(start)
 	s := strings.TrimSpace(string(out))
 	first := s
-	if i := strings.IndexByte(s, '\n'); i >= 0 {
-		first = s[:i]
+	for _, l := range strings.Split(s, "\n") {
+		l = strings.TrimSpace(l)
+		if l == "" || strings.HasPrefix(l, "WARNING") || strings.HasPrefix(l, ";") {
+			continue
+		}
+		first = l
+		break
 	}
-	first = strings.TrimSpace(first)
 	v := "error"
 	switch {
 	case first == "unsat":
